@@ -22,7 +22,12 @@ type C16Case struct {
 	SameProps bool `json:",omitempty"`
 	// Scheme 2/3/4: from one properties-carrying chunk to the next only pb / only lp / only lc changes;
 	// scheme 5: the first chunk is longer than the reader's dictionary
-	Scheme int `json:",omitempty"`
+	// scheme 6: the first chunk is so long that the bytes of chunk number Straddle (1-based after the
+	// first) lie across the physical end of the reader's ring buffer (4 KiB dictionary + 1), and
+	// every later LZMA chunk that inherits the dictionary starts with a match at the largest
+	// distance the dictionary allows
+	Scheme   int `json:",omitempty"`
+	Straddle int `json:",omitempty"`
 }
 
 func init() {
@@ -57,15 +62,30 @@ var c16Schemes = map[int][]ref.Props{
 // chunks adapted them; "new props" chunks rotate lc/lp/pb; chunks without
 // dictionary reset reach into the previous chunk.
 func c16Build(kinds []int, sameProps bool, scheme ...int) (data []byte, plains [][]byte, offsets []int) {
+	first := 5200
+	if len(scheme) > 1 && scheme[0] == 6 {
+		// dry run for the chunk lengths (they do not depend on the length of the long first chunk)
+		_, pl, _ := c16BuildN(kinds, sameProps, 4000, scheme...)
+		sum := 0
+		for i := 1; i < scheme[1] && i < len(pl); i++ {
+			sum += len(pl[i])
+		}
+		first = 4097 - sum - 2
+	}
+	return c16BuildN(kinds, sameProps, first, scheme...)
+}
+
+func c16BuildN(kinds []int, sameProps bool, first int, scheme ...int) (data []byte, plains [][]byte, offsets []int) {
 	g := ref.NewLZMA2Gen()
 	c16Props := c16Props
 	if len(scheme) > 0 && c16Schemes[scheme[0]] != nil {
 		c16Props = c16Schemes[scheme[0]]
 	}
+	farFirst := len(scheme) > 0 && scheme[0] == 6
 	// scheme 5: the first chunk is long (about 5200 bytes of 0xFF: more than the reader's 4 KiB
 	// dictionary, so its ring buffer has wrapped, and the last byte has all top bits set) - every
 	// later reset happens in a reader that is no longer in its initial state
-	longFirst := len(scheme) > 0 && scheme[0] == 5
+	longFirst := len(scheme) > 0 && (scheme[0] == 5 || scheme[0] == 6)
 	pi := 0
 	for i, k := range kinds {
 		kind := ref.ChunkKind(k)
@@ -74,11 +94,20 @@ func c16Build(kinds []int, sameProps bool, scheme ...int) (data []byte, plains [
 		var err error
 		switch {
 		case longFirst && i == 0 && (kind == ref.CRaw || kind == ref.CRawReset):
-			plain, err = g.Add(ref.ChunkSpec{Kind: kind, Raw: bytes.Repeat([]byte{0xFF}, 5200)})
+			plain, err = g.Add(ref.ChunkSpec{Kind: kind, Raw: bytes.Repeat([]byte{0xFF}, first)})
 		case longFirst && i == 0:
 			ops := []ref.Op{{Kind: ref.OpLit, Byte: 0xFF}}
-			for k := 0; k < 19; k++ {
-				ops = append(ops, ref.Op{Kind: ref.OpMatch, Len: 273, Dist: 1})
+			for rest := first - 1; rest > 0; {
+				l := rest
+				if l > 273 {
+					l = 273
+				}
+				if l < 2 {
+					ops = append(ops, ref.Op{Kind: ref.OpLit, Byte: 0xFF})
+				} else {
+					ops = append(ops, ref.Op{Kind: ref.OpMatch, Len: l, Dist: 1})
+				}
+				rest -= l
 			}
 			plain, err = g.Add(ref.ChunkSpec{Kind: kind, Ops: ops, Props: c16Props[0], Force: true})
 		case kind == ref.CRaw || kind == ref.CRawReset:
@@ -92,6 +121,13 @@ func c16Build(kinds []int, sameProps bool, scheme ...int) (data []byte, plains [
 			// previous byte < 0x20) that the 1st one adapted — only if the decoder saw the same context
 			ops := []ref.Op{{Kind: ref.OpLit, Byte: 1}, {Kind: ref.OpLit, Byte: 1}, {Kind: ref.OpLit, Byte: 2}, {Kind: ref.OpLit, Byte: 1},
 				{Kind: ref.OpLit, Byte: byte('A' + i)}, {Kind: ref.OpLit, Byte: 'a'}, {Kind: ref.OpLit, Byte: byte('A' + i)}}
+			if farFirst && win >= 1 {
+				far := win
+				if far > 4096 {
+					far = 4096
+				}
+				ops = append([]ref.Op{{Kind: ref.OpMatch, Len: 2, Dist: uint32(far)}}, ops...)
+			}
 			if win >= 3 {
 				dist := win + 1
 				if longFirst && dist > 3000 {
@@ -133,7 +169,7 @@ func kindsString(kinds []int) string {
 
 func c16Sequence(r *core.Run, p C16Case) {
 	cs := core.MkCase("C16", "sequence", p)
-	data, plains, _ := c16Build(p.Kinds, p.SameProps, p.Scheme)
+	data, plains, _ := c16Build(p.Kinds, p.SameProps, p.Scheme, p.Straddle)
 	// specification verdict
 	a := ref.NewChunkAutomaton()
 	legalPrefix := 0
@@ -171,7 +207,7 @@ func c16Sequence(r *core.Run, p C16Case) {
 		panic(fmt.Sprintf("C16 harness error: liblzma accepts the sequence %s the automaton calls illegal", kindsString(p.Kinds)))
 	}
 	out, err, proto, pan := lzma2Decode(data, 4096)
-	desc := fmt.Sprintf("chunk kinds [%s]+end (same properties in every chunk: %v, property scheme %d); specification: legal=%v (legal prefix %d chunks)", kindsString(p.Kinds), p.SameProps, p.Scheme, legal, legalPrefix)
+	desc := fmt.Sprintf("chunk kinds [%s]+end (same properties in every chunk: %v, property scheme %d, straddling chunk %d); specification: legal=%v (legal prefix %d chunks)", kindsString(p.Kinds), p.SameProps, p.Scheme, p.Straddle, legal, legalPrefix)
 	cls := errClass(err)
 	site := "lzma2R seq "
 	if legal {
@@ -339,6 +375,9 @@ func runC16(r *core.Run) {
 			}
 			if len(pref) <= depth-2 {
 				cases = append(cases, C16Case{Kinds: append([]int(nil), pref...), Scheme: 5})
+				for j := 1; j < len(pref); j++ {
+					cases = append(cases, C16Case{Kinds: append([]int(nil), pref...), Scheme: 6, Straddle: j})
+				}
 			}
 			if np >= 2 && len(pref) <= depth-1 {
 				for sc := 2; sc <= 4; sc++ {
